@@ -126,11 +126,12 @@ PROPS = {
         assumptions=["real arithmetic: kernel weights cannot underflow"],
         explanation="predict / sample_y contracts of ProbabilisticRegressor and the conjugate update; all regressors swept over training sets, priors and query points"),
     "C16": dict(
-        units=[("contracts.labels", None)],
+        units=[("contracts.labels", None), ("contracts.label_encoder", None)],
         bounded=[("bounded/labels.py", "C16")],
         trusted=[L2_BASE],
         assumptions=["numpy dtype promotion / casting is enumerated, not proved"],
-        explanation="predicate contracts; exhaustive finite enumeration dtype x sentinel x shape x pattern x container"),
+        explanation="predicate contracts, ExtLabelEncoder.transform / inverse_transform against the LabelEncoder contract and their round-trip lemma; "
+                    "exhaustive finite enumeration dtype x sentinel x shape x pattern x container"),
     "C17": dict(
         units=[("contracts.aggregation", None), ("contracts.selection", has("rand_argmax.axis1"))],
         bounded=[("bounded/labels.py", "C17")],
